@@ -762,6 +762,18 @@ fn c14c20_lex_keyword_words_q() {
     keyword_step::<11>();
 }
 
+// fallback tier: 4 bytes (5 for two-byte openers) -- run only when the 6-byte query of an edited tree
+// exceeds the memory/time cap, so that short witnesses are still found
+routine_harness!(c14c01c02_lex_whitespace_s, Class::Ws, 4, 6);
+routine_harness!(c14c01c02_lex_line_comment_s, Class::LineComment, 5, 7);
+routine_harness!(c14c01c02_lex_block_comment_s, Class::BlockComment, 5, 7);
+routine_harness!(c14c01c02_lex_number_s, Class::Number, 4, 6);
+routine_harness!(c14c01c02_lex_identifier_s, Class::Ident, 4, 12);
+routine_harness!(c14c01c02_lex_string_s, Class::Str, 4, 6);
+routine_harness!(c14c01c02_lex_var_name_s, Class::VarName, 4, 6);
+routine_harness!(c14c01c02_lex_code_s, Class::Code, 5, 7);
+routine_harness!(c14c01c02_lex_hash_s, Class::Hash, 5, 7);
+
 // thorough tier: 8 bytes (block comments / # : 10)
 routine_harness!(c14c01c02_lex_whitespace_t, Class::Ws, 8, 10);
 routine_harness!(c14c01c02_lex_line_comment_t, Class::LineComment, 8, 10);
